@@ -177,8 +177,8 @@ BSFamNone     == {}
 BSFamQuick    == {[m |-> 2, n |-> 2, e |-> 2, mod |-> 4], [m |-> 2, n |-> 3, e |-> 1, mod |-> 16],
                   [m |-> 3, n |-> 2, e |-> 2, mod |-> 192], [m |-> 3, n |-> 3, e |-> 1, mod |-> 192]}
 BSFamThorough == {[m |-> 2, n |-> 2, e |-> 2, mod |-> 1], [m |-> 2, n |-> 3, e |-> 1, mod |-> 1],
-                  [m |-> 3, n |-> 2, e |-> 1, mod |-> 2], [m |-> 3, n |-> 2, e |-> 2, mod |-> 24],
-                  [m |-> 3, n |-> 3, e |-> 1, mod |-> 24]}
+                  [m |-> 3, n |-> 2, e |-> 1, mod |-> 2], [m |-> 3, n |-> 2, e |-> 2, mod |-> 32],
+                  [m |-> 3, n |-> 3, e |-> 1, mod |-> 32]}
 \* instances listed by the harness (seeded random ones, any pattern of scaled rows / columns): IOEnv.BS_FILE
 BSFile        == FALSE
 BSFileOn      == TRUE
